@@ -125,6 +125,7 @@ package bttest
 // ModifyColumnFamilies
 // ---------------------------------------------------------------------------------------------
 
+//@ ghostvar mcfPurges int protocol
 //@ spec modIsCreate(m *btapb.ModifyColumnFamiliesRequest_Modification) bool = typeis(m.Mod, *btapb.ModifyColumnFamiliesRequest_Modification_Create) && as(m.Mod, *btapb.ModifyColumnFamiliesRequest_Modification_Create).Create != nil
 //@ spec modIsDrop(m *btapb.ModifyColumnFamiliesRequest_Modification) bool = typeis(m.Mod, *btapb.ModifyColumnFamiliesRequest_Modification_Drop) && as(m.Mod, *btapb.ModifyColumnFamiliesRequest_Modification_Drop).Drop
 //@ spec modIsUpdate(m *btapb.ModifyColumnFamiliesRequest_Modification) bool = typeis(m.Mod, *btapb.ModifyColumnFamiliesRequest_Modification_Update) && as(m.Mod, *btapb.ModifyColumnFamiliesRequest_Modification_Update).Update != nil
@@ -194,7 +195,16 @@ package bttest
 //@   loop 2 invariant forall i :: old(0 <= i <= idx2 && modLast(req.Modifications, i, idx2 + 1) && modIsUpdate(req.Modifications[i])) ==> cfs[old(req.Modifications[i].Id)].GcRule == old(as(req.Modifications[i].Mod, *btapb.ModifyColumnFamiliesRequest_Modification_Update).Update.GcRule)
 //@   loop 2 invariant forall i :: old(0 <= i <= idx2 && (modIsDrop(req.Modifications[i]) || modIsUpdate(req.Modifications[i])) && modFirst(req.Modifications, i)) ==> old(req.Modifications[i].Id in s.tables[req.Name].def.ColumnFamilies)
 //@   loop 2 invariant forall i :: old(0 <= i <= idx2 && modIsCreate(req.Modifications[i]) && modFirst(req.Modifications, i)) ==> !old(req.Modifications[i].Id in s.tables[req.Name].def.ColumnFamilies)
+// C14 "dropping a family removes its cells from every row": a request that contains a Drop modification reaches the
+// point where it persists the new schema only after exactly one purge pass over the rows (ghost counter mcfPurges,
+// incremented by ghost code after the Ascend call); the local flag `dropped` is true exactly when a Drop has been seen.
+//@   modifies ghost(mcfPurges)
+//@   callsite (Rows).Ascend ghost mcfPurges == mcfPurges + 1
+//@   loop 2 invariant mcfPurges == old(mcfPurges)
+//@   loop 2 invariant dropped == (exists i :: 0 <= i <= idx2 && old(modIsDrop(req.Modifications[i]) && !modIsCreate(req.Modifications[i])))
+//@   callsite (Storage).SetTableMeta requires (exists i :: 0 <= i < len(req.Modifications) && old(modIsDrop(req.Modifications[i]) && !modIsCreate(req.Modifications[i]))) ==> mcfPurges == old(mcfPurges) + 1
 // The purge collects the rows that change during the iteration (callback $1) and writes them back afterwards (loop 3).
+//@   loop 3 invariant mcfPurges == old(mcfPurges) + 1
 //@   callback $1 invariant cap(changedRows) == 0 || fresh(changedRows)
 //@   callback $1 invariant forall k :: 0 <= k < len(changedRows) ==> changedRows[k] != nil && fresh(changedRows[k]) && obj(changedRows[k]) > csStart()
 //@   callback $1 invariant forall k :: 0 <= k < len(changedRows) ==> treeFreshFC(changedRows[k])
